@@ -6,7 +6,7 @@ from ..core import rule
 from ..index import AnalysisError, dotted, src, walk_no_nested, names_in
 from ..cfg import CFG, const_env_step, eval3, UNK, OTHER
 from ..domains import linform, Lin
-from ..util import node_calls, own_expr, last_name, calls_named
+from ..util import node_calls, own_expr, last_name, calls_named, assigned_names, returned_names, is_call_to, enclosing_loops, loop_targets
 from .slots import LOADER, BASEDEMUX, FQITER, FQHANDLE, HANDLELIM, P
 
 DEMUX = P + 'modularDemultiplexer/demux.py'
@@ -22,6 +22,24 @@ def loader_loops(ctx):
     if len(inner) != 1:
         raise AnalysisError('loader: per-strategy loop not found')
     return f, outer[0], inner[0]
+
+
+def yield_counter(f):
+    """the per-strategy yield counter(s) of the loader: locals created as a Counter() that the function returns"""
+    rets = {x for t in returned_names(f) for x in t}
+    c = [n for n in assigned_names(f, lambda v: is_call_to(v, 'Counter', 'defaultdict')) if n in rets]
+    if not c:
+        raise AnalysisError('loader.demultiplex: no returned Counter() local (the per-strategy yield counter) found')
+    return set(c)
+
+
+def processed_counter(f):
+    """the processed-pairs counter: the first element of the returned tuple"""
+    rets = returned_names(f)
+    firsts = {t[0] for t in rets if len(t) >= 2}
+    if len(firsts) != 1:
+        raise AnalysisError(f'loader.demultiplex: returns {rets}, expected (processed, yields)')
+    return firsts.pop()
 
 
 def shape_fields(e, env=None):
@@ -92,6 +110,7 @@ def r1(ctx):
         if need not in params:
             raise AnalysisError(f'loader.demultiplex has no parameter {need}')
     strat = inner.target.id if isinstance(inner.target, ast.Name) else None
+    ycount = yield_counter(f)
 
     def may_raise(kind, a):
         if kind in ('with_exit', 'except') or isinstance(a, ast.Raise):
@@ -142,7 +161,7 @@ def r1(ctx):
                 elif isinstance(c.func, ast.Attribute) and c.func.attr == 'demultiplex' and isinstance(c.func.value, ast.Name) and c.func.value.id == strat:
                     new.append('demux-ok')
             if node.kind == 'stmt' and isinstance(node.ast, ast.AugAssign) and isinstance(node.ast.target, ast.Subscript) \
-                    and src(node.ast.target.value) == 'strategyYields':
+                    and src(node.ast.target.value) in ycount:
                 new.append('count')
             return (env, ev + tuple(new))
 
@@ -327,7 +346,11 @@ def r4(ctx):
     # FastqHandle.write writes str(record)
     w = ctx.fn(FQHANDLE, 'FastqHandle.write')
     wr = [c for c in walk_no_nested(w) if isinstance(c, ast.Call) and isinstance(c.func, ast.Attribute) and c.func.attr == 'write']
-    ok = len(wr) == 2 and all('str(record)' in src(c) for c in wr)
+    def writes_str_of_loopvar(c):
+        lv = {n for l in enclosing_loops(w, c) for n in loop_targets(l.target)}
+        return any(isinstance(x, ast.Call) and dotted(x.func) == 'str' and len(x.args) == 1 and isinstance(x.args[0], ast.Name) and x.args[0].id in lv
+                   for a in list(c.args) + [k.value for k in c.keywords] for x in ast.walk(a))
+    ok = len(wr) == 2 and all(writes_str_of_loopvar(c) for c in wr)
     ctx.emit('C01-R4', ok, FQHANDLE, w, 'FastqHandle.write hands str(record) to the file for every record', key='fastqhandle-writes-str', nontrivial=False)
 
 
@@ -347,7 +370,14 @@ def r5(ctx):
     ctx.emit('C01-R5', okf, FQITER, nt[0] if nt else f, 'FastqRecord fields are (header, sequence, plus, qual) in file order', key='record-field-order', nontrivial=False)
     g = ctx.fn(FQITER, 'FastqIterator.__next__')
     asg = [s for s in g.body if isinstance(s, ast.Assign) and isinstance(s.value, ast.Call) and dotted(s.value.func) == 'tuple']
-    okall = len(asg) == 1 and 'for handle in self.handles' in src(asg[0].value) and '_readFastqRecord' in src(asg[0].value)
+    def reads_every_handle(v):
+        for gexp in ast.walk(v):
+            if isinstance(gexp, (ast.GeneratorExp, ast.ListComp)) and len(gexp.generators) == 1 and src(gexp.generators[0].iter) == 'self.handles' \
+                    and not gexp.generators[0].ifs and isinstance(gexp.generators[0].target, ast.Name) and isinstance(gexp.elt, ast.Call) \
+                    and last_name(dotted(gexp.elt.func) or '') == '_readFastqRecord' and [src(a) for a in gexp.elt.args] == [gexp.generators[0].target.id]:
+                return True
+        return False
+    okall = len(asg) == 1 and reads_every_handle(asg[0].value)
     rec = asg[0].targets[0].id if asg and isinstance(asg[0].targets[0], ast.Name) else None
     stops = [s for s in walk_no_nested(g) if isinstance(s, ast.If) and any(isinstance(x, ast.Raise) and 'StopIteration' in src(x) for x in s.body)]
     okeof = False
@@ -363,7 +393,10 @@ def r5(ctx):
              what='FastqIterator.__next__: end-of-file test does not inspect the header line of every mate')
     # handles are opened in argument order
     i = ctx.fn(FQITER, 'FastqIterator.__init__')
-    ok = any(isinstance(s, ast.Assign) and src(s.targets[0]) == 'self.handles' and 'for path in args' in src(s.value) for s in walk_no_nested(i))
+    va = i.args.vararg.arg if i.args.vararg else None
+    ok = any(isinstance(s, ast.Assign) and src(s.targets[0]) == 'self.handles' and
+             any(isinstance(g, (ast.ListComp, ast.GeneratorExp)) and len(g.generators) == 1 and src(g.generators[0].iter) == va and not g.generators[0].ifs
+                 for g in ast.walk(s.value)) for s in walk_no_nested(i))
     ctx.emit('C01-R5', ok, FQITER, i, 'input handles are opened in argument order (R1, R2)', key='handles-in-order', nontrivial=False)
 
 
@@ -385,8 +418,9 @@ def r6(ctx):
     ctx.emit('C01-R6', okorder and len(lists) == 2, FQHANDLE, i, 'joint writer opens R1 then R2 (paired) / R1 (single end)', key='open-order')
     w = ctx.fn(FQHANDLE, 'FastqHandle.write')
     loops = [l for l in walk_no_nested(w) if isinstance(l, ast.For)]
+    recs = w.args.args[1].arg if len(w.args.args) > 1 else '?'
     sigs = sorted(src(l.iter) for l in loops)
-    ok = sigs == ["zip(('R1', 'R2'), records)", 'zip(self.handles, records)']
+    ok = sigs == [f"zip(('R1', 'R2'), {recs})", f'zip(self.handles, {recs})']
     ctx.emit('C01-R6', ok, FQHANDLE, w, f'writer pairs records positionally: {sigs}', key='zip-pairing')
     # mode: the joint files are opened truncating exactly once, text mode
     modes = sorted({c.args[1].value for c in walk_no_nested(i) if isinstance(c, ast.Call) and dotted(c.func) == 'gzip.open' and len(c.args) > 1 and isinstance(c.args[1], ast.Constant)})
@@ -405,20 +439,25 @@ def r7(ctx):
         from ..domains import check_pred
         t = brk[0].test
         try:
+            pc = processed_counter(f)
             ncase, bad = check_pred(t, lambda e: e['max'] and e['n'] >= e['m'], symbols=['n', 'm'],
-                                    atom_name=lambda x: {'processedReadPairs': 'n', 'maxReadPairs': 'm', 'maxReadPairs is not None': 'max'}.get(src(x)), extra_bools=['max'])
+                                    atom_name=lambda x: {pc: 'n', 'maxReadPairs': 'm', 'maxReadPairs is not None': 'max'}.get(src(x)), extra_bools=['max'])
             ctx.emit('C01-R7', not bad, LOADER, brk[0], f'cut-off predicate `{src(t)}` == (limit given and processed >= limit) over {ncase} cases' if not bad else f'cut-off predicate differs: {bad[0]}', key='cutoff-predicate')
         except AnalysisError as ex:
             ctx.emit('C01-R7', False, LOADER, brk[0], f'cut-off predicate not interpretable: {ex}', key='cutoff-predicate', undecided=True)
-    cnt = [s for s in outer.body if isinstance(s, ast.Assign) and src(s.targets[0]) == 'processedReadPairs']
+    pc = processed_counter(f)
+    cnt = [s for s in outer.body if isinstance(s, ast.Assign) and src(s.targets[0]) == pc]
     en = isinstance(outer.iter, ast.Call) and dotted(outer.iter.func) == 'enumerate'
     idx = outer.target.elts[0].id if isinstance(outer.target, ast.Tuple) else None
     ok = en and len(cnt) == 1 and linform(cnt[0].value) == Lin({idx: 1}, 1) and outer.body.index(cnt[0]) < outer.body.index(inner)
-    ctx.emit('C01-R7', ok, LOADER, cnt[0] if cnt else outer, f'processedReadPairs = {src(cnt[0].value) if cnt else None} at the top of each iteration', key='processed-counter')
+    ctx.emit('C01-R7', ok, LOADER, cnt[0] if cnt else outer, f'processed counter `{pc}` = {src(cnt[0].value) if cnt else None} at the top of each iteration', key='processed-counter')
     if ctx.ix.exists(DEMUX):
         m = ctx.ix.module(DEMUX)
         closes = [src(c.func) for c in ast.walk(m.tree) if isinstance(c, ast.Call) and isinstance(c.func, ast.Attribute) and c.func.attr == 'close']
-        ok = 'handle.close' in closes and 'rejectHandle.close' in closes
+        # the handles are the values the driver passes as targetFile= / rejectHandle= to the loader
+        passed = {k.arg: src(k.value) for c in ast.walk(m.tree) if isinstance(c, ast.Call) and isinstance(c.func, ast.Attribute) and c.func.attr == 'demultiplex'
+                  for k in c.keywords if k.arg in ('targetFile', 'rejectHandle') and isinstance(k.value, ast.Name)}
+        ok = len(passed) == 2 and all(v + '.close' in closes for v in passed.values())
         ctx.emit('C01-R7', ok, DEMUX, None, f'driver closes the output and reject handles ({[c for c in closes if "andle" in c]})', key='driver-closes', nontrivial=False)
 
 
